@@ -898,7 +898,7 @@ class Interp:
                 if exc_isa(exc.tname, x.tname):
                     return True
             elif isinstance(x, ClassVal):
-                if exc.tname == x.name:
+                if exc_isa(exc.tname, x.name):
                     return True
             else:
                 self.fail(f'unsupported exception type in handler: {x!r}', h)
@@ -968,6 +968,9 @@ class Interp:
         b = self.models.builtin(self, name)
         if b is not None:
             return b
+        import builtins as _b
+        if hasattr(_b, name):
+            self.fail(f'builtin {name} not modelled', node)      # Python knows the name: a NameError would be an invention
         raise AbsRaise(ExcVal('NameError', (name,)), node)
 
     def mangle(self, name, frame):
@@ -1100,11 +1103,22 @@ class Interp:
                         return BoundMethod(obj.self_val, v)
                     return v
             if name == '__init__':
+                if isinstance(obj.self_val, ExcVal):
+                    from .models import PyCallable
+                    ev = obj.self_val
+                    return PyCallable(lambda it, a, k, n: setattr(ev, 'args', tuple(a)), 'BaseException.__init__')
                 return self.models.noop_callable()
+            if not self.all_repo_bases(obj.cls):
+                self.fail(f'super().{name} of a class with a library base', node)
             raise AbsRaise(ExcVal('AttributeError', (f"'super' object has no attribute '{name}'",)), node)
         return self.models.getattr(self, obj, name, node)
 
     def setattr(self, obj, name, v, node):
+        if isinstance(obj, ExcVal):
+            if not hasattr(obj, 'attrs'):
+                obj.attrs = {}
+            obj.attrs[name] = v
+            return
         if isinstance(obj, Instance):
             if obj.cls.frozen and not getattr(obj, '_constructing', False):
                 raise AbsRaise(ExcVal('AttributeError', ('frozen instance',)), node)
@@ -1328,6 +1342,7 @@ class Interp:
         g = gens[i]
         sub = Frame(frame.module, frame.func, frame)
         sub.func = frame.func
+        sub.is_comprehension = True
         items = self.iterate(self.eval(g.iter, frame), g.iter)
         for x in items:
             self.assign(g.target, x, sub, g.iter)
@@ -1352,6 +1367,9 @@ class Interp:
             params = f.func.node.args.posonlyargs + f.func.node.args.args
             return SuperProxy(f.locals[params[0].arg], f.func.owner)
         fn = self.eval(node.func, frame)
+        if isinstance(fn, ExtRef) and fn.path in ('builtins.any', 'builtins.all', 'builtins.next') and node.args and isinstance(node.args[0], ast.GeneratorExp) \
+                and not node.keywords and len(node.args) <= (2 if fn.path == 'builtins.next' else 1):
+            return self.lazy_genexp_call(fn.path, node, frame)
         args = []
         for a in node.args:
             if isinstance(a, ast.Starred):
@@ -1370,9 +1388,51 @@ class Interp:
                 kwargs[kw.arg] = self.eval(kw.value, frame)
         return self.call(fn, args, kwargs, node, frame)
 
+    def lazy_genexp_call(self, path, node, frame):
+        """any(<genexp>) / all(<genexp>) / next(<genexp>[, default]): the items are produced one by one and production stops at the deciding one -
+        items after it are never evaluated (they may have side effects, or raise)"""
+        gen = node.args[0]
+
+        class _Stop(Exception):
+            pass
+        found = []
+
+        def emit(fr):
+            v = self.eval(gen.elt, fr)
+            if path == 'builtins.next':
+                found.append(v)
+                raise _Stop()
+            t = self.truth(v, gen.elt)
+            if t is not True and t is not False:
+                found.append(('undecided', t))
+                raise _Stop()
+            if (path == 'builtins.any') == t:
+                found.append(t)
+                raise _Stop()
+        try:
+            self._comp(gen.generators, 0, frame, emit)
+        except _Stop:
+            pass
+        if found and isinstance(found[0], tuple) and found[0][:1] == ('undecided',):
+            # an item whose truth depends on the data: fall back to the eager evaluation of all items (the models combine the formulas)
+            args = [self.eval(gen, frame)] + [self.eval(a, frame) for a in node.args[1:]]
+            return self.call(self.eval(node.func, frame), args, {}, node, frame)
+        if path == 'builtins.next':
+            if found:
+                return found[0]
+            if len(node.args) > 1:
+                return self.eval(node.args[1], frame)
+            raise AbsRaise(ExcVal('StopIteration'), node)
+        if found:
+            return found[0]
+        return path == 'builtins.all'
+
     def ex_NamedExpr(self, node, frame):
         v = self.eval(node.value, frame)
-        self.bind(frame, node.target.id, v)
+        f = frame
+        while getattr(f, 'is_comprehension', False) and f.closure is not None:
+            f = f.closure           # PEP 572: the target is bound in the scope containing the comprehension
+        self.bind(f, node.target.id, v)
         return v
 
     # -------------------------------------------------------------------------------------------
@@ -1401,9 +1461,36 @@ class Interp:
     def all_repo_bases(self, cls):
         return all(isinstance(b, ClassVal) and self.all_repo_bases(b) or (isinstance(b, ExtRef) and b.path in ('builtins.object',)) for b in cls.bases)
 
+    def exception_base_name(self, cls):
+        """name of the nearest built-in exception a repository exception class derives from"""
+        for b in cls.bases:
+            if isinstance(b, ExcType):
+                return b.tname
+            if isinstance(b, ClassVal) and self.class_is_exception(b):
+                return self.exception_base_name(b)
+        return 'Exception'
+
     def instantiate(self, cls, args, kwargs, node):
         if self.class_is_exception(cls):
-            return ExcVal(cls.name, tuple(args))
+            EXC_PARENT.setdefault(cls.name, self.exception_base_name(cls) if not any(isinstance(b, ClassVal) and self.class_is_exception(b) for b in cls.bases)
+                                  else next(b.name for b in cls.bases if isinstance(b, ClassVal) and self.class_is_exception(b)))
+            for b in cls.bases:
+                if isinstance(b, ClassVal) and self.class_is_exception(b):
+                    EXC_PARENT.setdefault(b.name, self.exception_base_name(b))
+            ev = ExcVal(cls.name, tuple(args))
+            ev.cls = cls
+            try:
+                init = cls.lookup('__init__')
+            except KeyError:
+                init = None
+            if isinstance(init, FuncVal):
+                # the class's own __init__ runs on the exception object (attributes such as .code); super().__init__(msg) sets .args
+                ev.attrs = {}
+                ev.args = ()
+                self.call_function(init, [ev] + list(args), kwargs, node)
+            elif kwargs:
+                raise AbsRaise(ExcVal('TypeError', (f'{cls.name}() takes no keyword arguments',)), node)
+            return ev
         inst = Instance(cls)
         inst._constructing = True
         if self.models.is_dict_subclass(cls):
@@ -1624,7 +1711,9 @@ class Interp:
 
     def iterate(self, v, node):
         if isinstance(v, GenList):
-            return list(v[v.pos:])
+            rest = list(v[v.pos:])
+            v.pos = len(v)
+            return rest
         if isinstance(v, ClassVal) and getattr(v, 'enum_members', None) is not None:
             seen, out = set(), []
             for m in v.enum_members.values():       # aliases are not listed
@@ -1637,12 +1726,13 @@ class Interp:
         if isinstance(v, (dict, set, frozenset, str, range)):
             return list(v)
         if isinstance(v, GenResult):
-            # what next() has taken is gone (a full pass is not recorded as exhausting it: models may look twice)
+            # what next() has taken is gone, and a full pass uses the generator up: a second pass finds nothing
             rest = list(v.items[getattr(v, 'pos', 0):])
             if getattr(v, 'pending', None) is not None:
                 if rest:
                     self.fail('a generator that raises after yielding is consumed item by item: not modelled', node)
                 raise v.pending
+            v.pos = len(v.items)
             return rest
         if isinstance(v, Instance) and v.tuple_items() is not None:
             return v.tuple_items()
